@@ -13,8 +13,14 @@ histories and the reference cell store: `CweModel/C05/Model.lean`. Per-operation
 `Lemmas.lean`, `Ops.lean`, `Merge.lean`.
 
 Preconditions made explicit (`Pre`): sizes are positive (the Rust code asserts it), top-write
-intervals are non-empty, and — because i64 arithmetic is modelled in `Int` — all offsets of the
-two operands of a merge are representable (`Bounded`; `merge_inner` compares against `i64::MIN`).
+intervals are non-empty, and the offsets of the two operands of a merge are not below `i64::MIN`
+(`LowerBounded`; `merge_inner` starts its running range end at `i64::MIN`).
+
+Positions are `Int`s in the model. The last section ("positions representable in i64") ties this
+to the code, whose positions are i64 values: the repaired interval arithmetic of `mem_region.rs`
+(interval ends in i128, range `position..` when `position + size` exceeds `i64::MAX`) is
+modelled literally (`stepI64`) and proved equal to the `Int` model for ALL i64 positions —
+including those at and next to `i64::MAX` — under the explicit hypotheses `KeysI64`/`OpI64`.
 -/
 import CweModel.C05.Merge
 
@@ -70,7 +76,7 @@ def Pre (r : Region V) : Op V → Prop
   | .remove _ n => 0 < n
   | .mergeWriteTop _ n => 0 < n
   | .markInterval s e n => s < e + (n : Int)
-  | .merge other => Inv other ∧ Bounded other ∧ Bounded r
+  | .merge other => Inv other ∧ LowerBounded other ∧ LowerBounded r
   | _ => True
 
 /-- the preconditions hold along the whole history -/
@@ -197,11 +203,11 @@ theorem step_refines [LawfulValueDomain V] [IdemMerge V] [DecidableEq V] {r : Re
     refine ⟨mergeRegions r other, rfl, ?_, ?_⟩
     · unfold mergeRegions; split
       · exact h
-      · exact inv_mergeInner h ho hbr hbo
+      · exact inv_mergeInner_lb h ho hbr hbo
     · unfold mergeRegions; split
       · rename_i heq; subst heq
         exact (Spec.merge_self h).symm
-      · exact fun x => mem_mergeInner h ho hbr hbo
+      · exact fun x => mem_mergeInner_lb h ho hbr hbo
 
 /-! ### histories -/
 
@@ -655,20 +661,20 @@ theorem Spec.mem_merge {a b : Region V} (ha : Inv a) (hb : Inv b) (x : Int × V)
 offset with the same size (values merged), and the cells of either input that share no byte with
 any cell of the other input (merged with the unknown value) — each dropped if the merged value
 is the unknown value — and nothing else. -/
-theorem mergeInner_cells {a b : Region V} (ha : Inv a) (hb : Inv b) (hba : Bounded a)
-    (hbb : Bounded b) (x : Int × V) :
+theorem mergeInner_cells {a b : Region V} (ha : Inv a) (hb : Inv b) (hba : LowerBounded a)
+    (hbb : LowerBounded b) (x : Int × V) :
     x ∈ mergeInner a b ↔ isTop x.2 = false ∧
       ((∃ va vb, (x.1, va) ∈ a ∧ (x.1, vb) ∈ b ∧ size va = size vb ∧ x.2 = merge va vb) ∨
        (∃ va, (x.1, va) ∈ a ∧ (∀ d ∈ b, cellsOverlap (x.1, va) d = false) ∧
           x.2 = merge va (newTop (size va))) ∨
        (∃ vb, (x.1, vb) ∈ b ∧ (∀ c ∈ a, cellsOverlap (x.1, vb) c = false) ∧
           x.2 = merge vb (newTop (size vb)))) :=
-  (mem_mergeInner ha hb hba hbb).trans (Spec.mem_merge ha hb x)
+  (mem_mergeInner_lb ha hb hba hbb).trans (Spec.mem_merge ha hb x)
 
 /-- **C05-merge-invariant.** the public `merge` (with its `self == other` short-cut) preserves the
 invariant and yields the cells of the reference merge -/
 theorem mergeRegions_refines [LawfulValueDomain V] [IdemMerge V] [DecidableEq V] {a b : Region V}
-    (ha : Inv a) (hb : Inv b) (hba : Bounded a) (hbb : Bounded b) :
+    (ha : Inv a) (hb : Inv b) (hba : LowerBounded a) (hbb : LowerBounded b) :
     Inv (mergeRegions a b) ∧ SameCells (mergeRegions a b) (Spec.merge a b) := by
   obtain ⟨r', hstep, hinv, hsame⟩ := step_refines ha (Op.merge b) ⟨hb, hbb, hba⟩
   simp only [step, Option.some.injEq] at hstep
@@ -832,5 +838,231 @@ example : Spec.merge ([(0, .tainted 4), (8, .tainted 4)] : Store TaintVal)
 /-- over `BitvectorDomain` (top maximal) only equal values in equal slots survive a merge -/
 example : mergeInner ([(0, .val 4 1), (8, .val 4 2), (16, .val 2 3)] : Region BvVal)
     [(0, .val 4 1), (8, .val 4 5), (30, .val 4 4)] = [(0, .val 4 1)] := by decide
+
+/-! ### the repaired interval arithmetic: positions representable in i64
+
+`mem_region.rs` computes interval ends in i128 (exact) and asks the BTreeMap for `start..end` if
+`end` is an i64 and for `start..` otherwise (`interval_bounds`). `stepI64` (Model.lean) mirrors
+that. On a region whose positions are i64 values — every `BTreeMap<i64, T>` — it coincides with
+the `Int` model `step` the theorems above are about, for ALL i64 position arguments (no
+"position + size does not overflow" precondition any more). The hypothesis "positions
+representable in i64" is explicit: `KeysI64` on regions, `OpI64` on operation arguments. -/
+
+omit [ValueDomain V] in
+theorem KeysI64.upper {r : Region V} (h : KeysI64 r) : UpperI64 r := fun c hc => (h c hc).2
+
+omit [ValueDomain V] in
+theorem KeysI64.lower {r : Region V} (h : KeysI64 r) : LowerBounded r := fun c hc => (h c hc).1
+
+omit [ValueDomain V] in
+theorem UpperI64.sublist {r r' : Region V} (h : UpperI64 r) (hs : r'.Sublist r) : UpperI64 r' :=
+  fun c hc => h c (hs.subset hc)
+
+/-- `range(interval_bounds(lo, hi))` = `range(lo..hi)` computed without bounds, on a map whose keys
+do not exceed `i64::MAX` -/
+theorem rangeI64_eq {α : Type} {m : BMap α} (hm : UpperI64 m) {lo hi : Int} (hhi : i64Min ≤ hi) :
+    rangeI64 m lo hi = BMap.range m lo hi := by
+  unfold rangeI64 BMap.range
+  split
+  · rfl
+  · rename_i hno
+    have hgt : i64Max < hi := by omega
+    apply List.filter_congr
+    intro c hc
+    have := hm c hc
+    have hlt : c.1 < hi := by omega
+    simp [hlt]
+
+/-- **C05-clear-overflow (code path).** If `position + size` exceeds `i64::MAX`, the repaired
+`clear_interval` clears all cells from `position` upward … -/
+theorem clearIntervalI64_overflow (r : Region V) {p n : Int} (h : i64Max < p + n) :
+    clearIntervalI64 r p n = clearFrom r p := by
+  have : ¬ (i64Min ≤ p + n ∧ p + n ≤ i64Max) := by omega
+  simp only [clearIntervalI64, clearFrom, rangeI64, this, if_false]
+
+/-- the repaired `clear_interval` is the `Int` model on regions with positions ≤ `i64::MAX` -/
+theorem clearIntervalI64_eq {r : Region V} (hu : UpperI64 r) {p n : Int} (h : i64Min ≤ p + n) :
+    clearIntervalI64 r p n = clearInterval r p n := by
+  simp only [clearIntervalI64, clearInterval, rangeI64_eq (hu.sublist (clearPrev_sublist r p)) h]
+
+/-- **C05-clear-overflow.** … and for a region all of whose positions are ≤ `i64::MAX` that is
+the same as clearing `[position, position + size)`: -/
+theorem clearFrom_eq_clearInterval {r : Region V} (hu : UpperI64 r) {p n : Int} (h : i64Max < p + n) :
+    clearFrom r p = clearInterval r p n := by
+  rw [← clearIntervalI64_overflow r h, clearIntervalI64_eq hu (by unfold i64Min; unfold i64Max at h; omega)]
+
+/-- reference store: delete every cell that reaches `lo` or lies above it -/
+def Spec.deleteFrom (s : Store V) (lo : Int) : Store V := s.filter (fun c => !decide (lo < c.1 + isize c.2))
+
+/-- **C05-clear-overflow (specification).** For a store all of whose cell positions are
+≤ `i64::MAX`, deleting `[p, hi)` equals deleting `[p, ∞)` whenever `hi > i64::MAX`. -/
+theorem Spec.delete_eq_deleteFrom {s : Store V} (hu : UpperI64 s) {lo hi : Int} (h : i64Max < hi) :
+    Spec.delete s lo hi = Spec.deleteFrom s lo := by
+  unfold Spec.delete Spec.deleteFrom
+  apply List.filter_congr
+  intro c hc
+  have := hu c hc
+  have hlt : c.1 < hi := by omega
+  simp [overlaps, hlt]
+
+/-- `clearFrom` removes exactly the cells reaching `p` or lying above it -/
+theorem mem_clearFrom {r : Region V} (h : Inv r) (hu : UpperI64 r) {p : Int} {x : Int × V} :
+    x ∈ clearFrom r p ↔ x ∈ Spec.deleteFrom r p := by
+  have hn : i64Max < p + (max 1 (i64Max + 1 - p)) := by omega
+  have hpos : 0 < max 1 (i64Max + 1 - p) := by omega
+  rw [clearFrom_eq_clearInterval hu hn, mem_clearInterval_spec h hpos, Spec.delete_eq_deleteFrom hu hn]
+
+/-- the position arguments of the operation are i64 values; an offset shift keeps all positions
+inside i64 (`index + offset` is the one sum `mem_region.rs` still computes in i64) -/
+def OpI64 (r : Region V) : Op V → Prop
+  | .insert p _ => I64 p
+  | .remove p _ => I64 p
+  | .mergeWriteTop p _ => I64 p
+  | .markInterval s e _ => I64 s ∧ I64 e
+  | .addOffset d => ∀ c ∈ r, I64 (c.1 + d)
+  | .merge other => KeysI64 other
+  | _ => True
+
+theorem upper_mergePrevWithTop {r : Region V} (h : Inv r) (hu : UpperI64 r) (p : Int) :
+    UpperI64 (mergePrevWithTop r p) := by
+  intro x hx
+  rcases (mem_mergePrevWithTop h).mp hx with ⟨hx, _⟩ | ⟨c, hc, _, hw⟩
+  · exact hu x hx
+  · obtain ⟨_, rfl⟩ := weaken_eq_some.mp hw
+    exact hu c hc
+
+/-- **C05-i64.** On a region with positions ≤ `i64::MAX` and for i64 position arguments the
+repaired code (`stepI64`: interval ends in i128, unbounded range above `i64::MAX`) is the `Int`
+model `step` — including the panics. -/
+theorem stepI64_eq_step [DecidableEq V] {r : Region V} (h : Inv r) (hu : UpperI64 r) {op : Op V}
+    (hop : OpI64 r op) : stepI64 r op = step r op := by
+  cases op with
+  | insert p v =>
+    have hp : I64 p := hop
+    unfold I64 at hp
+    simp only [stepI64, step, insertAtByteIndexI64, insertAtByteIndex]
+    split
+    · rename_i hpos
+      rw [clearIntervalI64_eq hu (by omega)]
+    · rfl
+  | remove p n =>
+    have hp : I64 p := hop
+    unfold I64 at hp
+    simp only [stepI64, step, removeI64, MemRegion.remove]
+    split
+    · rename_i hpos
+      rw [clearIntervalI64_eq hu (by omega)]
+    · rfl
+  | mergeWriteTop p n =>
+    have hp : I64 p := hop
+    unfold I64 at hp
+    simp only [stepI64, step, mergeWriteTopI64, mergeWriteTop,
+      clearIntervalI64_eq hu (show i64Min ≤ p + (n : Int) by omega)]
+    cases BMap.get r p <;> rfl
+  | markInterval s e n =>
+    have hp : I64 s ∧ I64 e := hop
+    unfold I64 at hp
+    simp only [stepI64, step, markIntervalValuesAsTopI64, markIntervalValuesAsTop,
+      mergeValuesIntersectingRangeWithTopI64, mergeValuesIntersectingRangeWithTop]
+    rw [rangeI64_eq (upper_mergePrevWithTop h hu s) (by omega)]
+    by_cases hlt : e + (n : Int) < s
+    · rw [if_pos ⟨⟨by omega, by omega⟩, hlt⟩, if_pos hlt]
+    · rw [if_neg (fun hh => hlt hh.2), if_neg hlt]
+  | markAll => rfl
+  | addOffset d => rfl
+  | scrub p => rfl
+  | clearTop => rfl
+  | merge other => rfl
+
+/-- an operation keeps the positions inside i64 -/
+theorem keysI64_step [LawfulValueDomain V] [IdemMerge V] [DecidableEq V] {r r' : Region V} (h : Inv r)
+    {op : Op V} (hpre : Pre r op) (hk : KeysI64 r) (hop : OpI64 r op) (hs : step r op = some r') :
+    KeysI64 r' := by
+  obtain ⟨r'', hs', _, hsame⟩ := step_refines h op hpre
+  rw [hs] at hs'
+  obtain rfl : r' = r'' := by simpa using hs'
+  intro x hx
+  have hx := (hsame x).mp hx
+  cases op with
+  | insert p v =>
+    rcases Spec.mem_write.mp hx with ⟨hx, _⟩ | ⟨_, rfl⟩
+    · exact hk x hx
+    · exact hop
+  | remove p n => exact hk x (Spec.mem_delete.mp hx).1
+  | mergeWriteTop p n =>
+    obtain ⟨_, c, hc, hkc, _⟩ := Spec.writeTop_source h.noTop hx
+    rw [← hkc]; exact hk c hc
+  | markInterval s e n =>
+    obtain ⟨_, c, hc, hkc, _⟩ := Spec.weakenIf_source h.noTop hx
+    rw [← hkc]; exact hk c hc
+  | markAll =>
+    obtain ⟨c, hc, hw⟩ := List.mem_filterMap.mp hx
+    rw [← (weaken_source hw).2.1]; exact hk c hc
+  | addOffset d =>
+    obtain ⟨c, hc, rfl⟩ := List.mem_map.mp hx
+    exact hop c hc
+  | scrub p => exact hk x (List.mem_filter.mp hx).1
+  | clearTop => exact hk x hx
+  | merge other =>
+    rcases (Spec.merge_source hx).2 with ⟨c, hc, hkc, _⟩ | ⟨d, hd, hkd, _⟩
+    · rw [← hkc]; exact hk c hc
+    · rw [← hkd]; exact hop d hd
+
+/-- the position arguments are i64 values along the whole history -/
+def OpI64All [DecidableEq V] (r : Region V) : List (Op V) → Prop
+  | [] => True
+  | op :: ops => OpI64 r op ∧ ∀ r', step r op = some r' → OpI64All r' ops
+
+/-- **C05-refinement (repaired code, i64 positions).** For EVERY history whose position arguments
+are i64 values (and whose offset shifts stay inside i64) and that meets the preconditions —
+nothing is assumed about `position + size`: positions AT `i64::MAX` are included — the repaired
+code does not panic, agrees with the `Int` model, keeps the invariant and all positions inside
+i64, and holds exactly the cells of the reference cell store. -/
+theorem runI64_refines [LawfulValueDomain V] [IdemMerge V] [DecidableEq V] (ops : List (Op V)) :
+    ∀ {r : Region V} {s : Store V}, Inv r → KeysI64 r → SameCells r s → PreAll r ops → OpI64All r ops →
+      ∃ r', runI64 r ops = some r' ∧ run r ops = some r' ∧ Inv r' ∧ KeysI64 r' ∧
+        SameCells r' (Spec.run s ops) := by
+  induction ops with
+  | nil => intro r s h hk hs _ _; exact ⟨r, rfl, rfl, h, hk, hs⟩
+  | cons op ops ih =>
+    intro r s h hk hs hpre hop
+    obtain ⟨r1, hstep, hinv1, hsame1⟩ := step_refines h op hpre.1
+    have hk1 := keysI64_step h hpre.1 hk hop.1 hstep
+    obtain ⟨r', hrunI, hrun, hinv', hk', hsame'⟩ :=
+      ih hinv1 hk1 (hsame1.trans (Spec.step_congr hs op)) (hpre.2 r1 hstep) (hop.2 r1 hstep)
+    refine ⟨r', ?_, by simp [run, hstep, hrun], hinv', hk', hsame'⟩
+    simp [runI64, stepI64_eq_step h hk.upper hop.1, hstep, hrunI]
+
+/-- histories without shifts and merges: `OpI64` does not depend on the region -/
+theorem OpI64All.of_static [DecidableEq V] {ops : List (Op V)} :
+    ∀ {r : Region V}, (∀ op ∈ ops, OpI64 ([] : Region V) op ∧ (∀ d, op ≠ Op.addOffset d) ∧ ∀ o, op ≠ Op.merge o) →
+      OpI64All r ops := by
+  induction ops with
+  | nil => intro _ _; trivial
+  | cons op ops ih =>
+    intro r h
+    refine ⟨?_, fun r' _ => ih (fun o ho => h o (List.mem_cons_of_mem _ ho))⟩
+    have := h op List.mem_cons_self
+    cases op <;> simp_all [OpI64]
+
+/-- a history AT `i64::MAX`: every interval end exceeds `i64::MAX` -/
+def exEdgeOps : List (Op BvVal) :=
+  [.insert (i64Max - 8) (.val 8 5), .insert i64Max (.val 8 1), .insert (i64Max - 2) (.val 4 9),
+   .mergeWriteTop (i64Max - 1) 8, .insert i64Max (.val 1 2), .markInterval (i64Max - 20) i64Max 4,
+   .insert (i64Max - 3) (.val 8 7), .remove (i64Max - 4) 1]
+
+example : runI64 ([] : Region BvVal) exEdgeOps = some [(i64Max - 3, .val 8 7)] := by decide
+example : Spec.run ([] : Store BvVal) exEdgeOps = [(i64Max - 3, .val 8 7)] := by decide
+
+theorem exEdgeOps_pre : PreAll (MemRegion.new : Region BvVal) exEdgeOps :=
+  PreAll.of_simple (by simp [exEdgeOps, Spec.pre, ValueDomain.size, BvVal.size, i64Max])
+
+theorem exEdgeOps_i64 : OpI64All (MemRegion.new : Region BvVal) exEdgeOps :=
+  OpI64All.of_static (by simp [exEdgeOps, OpI64, I64, i64Max, i64Min])
+
+example : ∃ r, runI64 (MemRegion.new : Region BvVal) exEdgeOps = some r ∧
+    run (MemRegion.new : Region BvVal) exEdgeOps = some r ∧ Inv r ∧ KeysI64 r ∧
+    SameCells r (Spec.run [] exEdgeOps) :=
+  runI64_refines exEdgeOps inv_nil (fun _ h => nomatch h) (SameCells.refl _) exEdgeOps_pre exEdgeOps_i64
 
 end CweModel.C05
